@@ -46,6 +46,7 @@ MIN_REACH = {
     "partial_write_states": {"quick": 100, "thorough": 1000},
     "syscall_crash_points": {"quick": 8, "thorough": 50},
     "recoveries_of_a_crop_of_twelve_batches": {"quick": 10, "thorough": 10},
+    "recoveries_of_a_harvester_whose_file_is_named_by_a_path_object": {"quick": 25, "thorough": 25},
     "recoveries_that_resowed_through_the_restored_crop_of_a_farmer_with_resources": {"quick": 20, "thorough": 150},
 }
 TIME_BUDGET = {"quick": 500, "thorough": 3400}
@@ -73,7 +74,7 @@ def cases(ctx):
                    "engine": "joblib" if (farmer == "harvester" and victim in ("reap", "grow_missing", "resow")) else None,
                    "grown": [1] if victim.startswith("grow") else [], "idx": idx, "depth2": 0, "part": [part, P],
                    # (some farmers supply a constant argument that is not recorded with the data)
-                   "res": farmer != "raw" and idx % 4 in (1, 2)}
+                   "res": farmer != "raw" and idx % 4 in (1, 2), "pathname": farmer == "harvester" and victim in ("reap", "sow", "grow_missing")}
         idx += 1
     for farmer, victim in base:
         if victim in ("grow_subset", "grow_missing", "reap"):
@@ -141,9 +142,11 @@ def _mk(case, root):
     r = xyzpy.Runner(fn, ["y", "z"], var_dims={"z": "t"}, var_coords={"t": T_VALS}, **rkw)
     if farmer == "runner":
         return fn, r
+    import pathlib
+    as_path = pathlib.Path if case.get("pathname") else str      # (the file named by a pathlib.Path, not a str)
     if case.get("engine") == "joblib":
-        return fn, xyzpy.Harvester(r, data_name=os.path.join(root, "harvest.dmp"), engine="joblib")
-    return fn, xyzpy.Harvester(r, data_name=os.path.join(root, "harvest.h5"))
+        return fn, xyzpy.Harvester(r, data_name=as_path(os.path.join(root, "harvest.dmp")), engine="joblib")
+    return fn, xyzpy.Harvester(r, data_name=as_path(os.path.join(root, "harvest.h5")))
 
 
 def _new_crop(case, root):
@@ -564,6 +567,8 @@ def run_case(ctx, case):
             bad.append(("recovery", "killed before %s; documented recovery %s: %s" % (evname, r2[0], r2[1])))
         else:
             ctx.count("recoveries_exact")
+            if case.get("pathname"):
+                ctx.count("recoveries_of_a_harvester_whose_file_is_named_by_a_path_object")
             if case.get("twelve"):
                 ctx.count("recoveries_of_a_crop_of_twelve_batches")
             if r2[1] == "restored-resow":
